@@ -14,7 +14,7 @@ C. failing-input search (independent of the model): for each input, stdout and e
    and nothing may be missing (stdout = rendering of the k-way merge; order also checked
    against the Coq spec `merge`).
 """
-import hashlib, json, os
+import hashlib, json, os, re
 import vlib
 import merge_util as mu
 
@@ -27,6 +27,15 @@ TIME_BOUND = 60
 def plans_for(rng, inp, k, cls):
     names = [s["name"] for s in inp["sources"]]
     sd = lambda: rng.randrange(1 << 30)
+    if cls == "blocked":
+        # every send of the slow source takes 2.6-3.5 s: the fast worker stays blocked on its
+        # full channel for seconds; the unplanned run is the reference
+        sl = inp["slow_name"]
+        return [None,
+                "seed=%d,max_us=0,slow=%s:2600000" % (sd(), sl),
+                "seed=%d,max_us=50,slow=%s:%d" % (sd(), sl, rng.randrange(2600000, 3500001)),
+                "seed=%d,max_us=0,slow=%s:3500000,poll_us=200" % (sd(), sl),
+                "seed=%d,max_us=300" % sd()]
     pool = [None,
             "seed=%d,max_us=300" % sd(),
             "seed=%d,max_us=0,poll_us=2000" % sd(),                               # slow coordinator: channels fill, workers block
@@ -54,6 +63,8 @@ def gen(rng, cls, max_src):
     if cls == "early":
         # tiny sources (<= 3 messages: all their datums fit in the channel, the worker ends at once)
         return mu.gen_input(rng, rng.randrange(2, 7), rng.choice([1, 2, 3]), opts_choices=OPTS)
+    if cls == "blocked":
+        return mu.blocked_input(rng, opts_choices=OPTS)
     if cls == "subus":
         return mu.subus_input(rng, rng.choice([2, 3, 4, 6]), rng.choice([3, 6, 12]), opts_choices=OPTS)
     if cls == "wide":
@@ -96,18 +107,27 @@ def run(ctx):
     for k in range((4 if quick else 40) if fams else 0):
         inputs.append(mu.fixture_input(rng, fams))
         classes.append("fixture")
+    for k in range(2 if quick else 12):                      # long runs first: they overlap with the rest
+        inp = gen(rng, "blocked", max_src)
+        mu.write_input(inp, os.path.join(scratch, "blocked%02d" % k), rng.randrange(1000))
+        inputs.append(inp)
+        classes.append("blocked")
     for k in range(n_inputs):
         cls = ["mix", "subus", "early", "big", "mix", "early", "wide", "subus"][k % 8]
         inp = gen(rng, cls, max_src)
         mu.write_input(inp, os.path.join(scratch, "in%04d" % k), rng.randrange(1000))
         inputs.append(inp)
         classes.append(cls)
-    n_fixed = sum(1 for c in classes if c in ("corpus", "fixture"))
+    n_fixed = sum(1 for c in classes if c in ("corpus", "fixture", "blocked"))
     jobs, meta = [], []
     for ii, inp in enumerate(inputs):
         for pi, plan in enumerate(plans_for(rng, inp, n_plans, classes[ii])):
             jobs.append((inp, plan, os.path.join(scratch, "trace-%04d-%02d.txt" % (ii, pi)), TIME_BOUND))
             meta.append(ii)
+    # the multi-second runs are started first (stable sort keeps everything else in order)
+    order = sorted(range(len(jobs)), key=lambda j: 0 if (jobs[j][1] and re.search(r"slow=[^,]*:\d{7}", jobs[j][1])) else 1)
+    jobs = [jobs[j] for j in order]
+    meta = [meta[j] for j in order]
     results = mu.run_many(jobs, workers=8)
 
     # ---- C
@@ -209,18 +229,23 @@ def run(ctx):
                 fbs += 1
     # non-trivial: a run whose input has >= 2 sources (an interleaving exists); distinct by (input, receive interleaving)
     nontriv = sum(len(v) for ii, v in distinct_traces.items() if len(inputs[ii]["sources"]) >= 2)
+    blocked_walls = [res["wall"] for ii, res in zip(meta, results)
+                     if inputs[ii].get("blocked") and res["plan"] and re.search(r"slow=[^,]*:\d{7}", res["plan"])]
     cls_hist = {}
     for c in classes:
         cls_hist[c] = cls_hist.get(c, 0) + 1
     walls = sorted(r["wall"] for r in results)
     ctx.coverage.update(
         evaluations=len(results), distinct_nontrivial=nontriv,
-        rule="instants are nanoseconds (timestamps with 6-9 fractional digits); input classes: subus (sources whose messages fall inside the same microsecond, the later-named source holding the earlier one, mixed with exact ties), corpus (corpus/C06, hand-picked ties), fixture (2-6 utmp / evtx / journal files of /repo/logs in several compressed variants; instants read back from s4's own -u -d prefix), mix (1-8 text sources, 0-40 messages, ties, gz/xz, non-chronological, emptied by -a/-b, failing sources without timestamps, directory argument), early (2-6 sources of 1-3 messages: a worker ends before others start; one source delayed 20 ms per send), big (2-4 sources of 60-300 messages: channels of capacity 5 stay full under a slow coordinator), wide (9-%d sources); each input under %d planned schedules (no delay; random per-send delays; slow coordinator poll_us; one slow source; combinations). distinct_nontrivial counts DISTINCT (input, coordinator event sequence) pairs over inputs with >= 2 sources, i.e. distinct observed interleavings" % (max_src, n_plans),
+        rule="instants are nanoseconds (timestamps with 6-9 fractional digits); input classes: blocked (a fast source of 12-80 messages, i.e. well over CHANNEL_CAPACITY+1 datums, next to a slow source of 1-2 messages inside the fast source's time range whose every send is delayed 2.6-3.5 s by the plan: the fast worker sits in send on its full channel for seconds; 5 plans: unplanned reference, three multi-second plans, one fast random plan), subus (sources whose messages fall inside the same microsecond, the later-named source holding the earlier one, mixed with exact ties), corpus (corpus/C06, hand-picked ties), fixture (2-6 utmp / evtx / journal files of /repo/logs in several compressed variants; instants read back from s4's own -u -d prefix), mix (1-8 text sources, 0-40 messages, ties, gz/xz, non-chronological, emptied by -a/-b, failing sources without timestamps, directory argument), early (2-6 sources of 1-3 messages: a worker ends before others start; one source delayed 20 ms per send), big (2-4 sources of 60-300 messages: channels of capacity 5 stay full under a slow coordinator), wide (9-%d sources); each input under %d planned schedules (no delay; random per-send delays; slow coordinator poll_us; one slow source; combinations). distinct_nontrivial counts DISTINCT (input, coordinator event sequence) pairs over inputs with >= 2 sources, i.e. distinct observed interleavings" % (max_src, n_plans),
         samples=[dict(mu.describe(inputs[i]), cls=classes[i], plans=[results[ri]["plan"] for ri in by_input[i]][:4],
                       distinct_interleavings=len(distinct_traces.get(i, ()))) for i in (0, n_fixed, n_fixed + 2, n_fixed + 3)],
         inputs=len(inputs), plans_per_input=n_plans, input_class_histogram=cls_hist,
         traces_validated_against_impl=len(tr_cases) - len(tbad), trace_disagreements=len(tbad),
         schedule_dependent_inputs=sched_dep, hangs=hangs,
+        blocked_worker_runs=len(blocked_walls), blocked_worker_run_wall_s_min=round(min(blocked_walls), 2) if blocked_walls else 0,
+        blocked_worker_run_wall_s_max=round(max(blocked_walls), 2) if blocked_walls else 0,
+        blocked_worker_fast_source_messages=[max(len(s["msgs"]) for s in inp["sources"]) for inp in inputs if inp.get("blocked")],
         inputs_with_utmp_source_last_record_not_newest=sum(1 for inp in inputs if not inp.get("fixture") and mu.describe(inp)["physically_last_record_not_newest"]),
         inputs_with_sub_microsecond_inversions=sum(1 for inp in inputs if not inp.get("fixture") and mu.subus_inversions(inp) > 0),
         runs_where_a_source_finished_before_another_started=fbs,
